@@ -106,17 +106,22 @@ Canon(g, x) == IF IsLeaf(g, x) THEN [t |-> g.tx[x], k |-> {}]
                ELSE IF Len(g.kids[x]) = 1 THEN Canon(g, g.kids[x][1])
                ELSE [t |-> 0, k |-> {Canon(g, c) : c \in KidSet(g, x)}]
 \* the same tree hung from the node above leaf r (the unrooted topology seen from r):
-\* UpCanon(x, from) = everything of the tree that is not below `from`, seen from x
-RECURSIVE UpCanon(_, _, _)
-UpCanon(g, x, from) ==
+\* UpParts(x, from) = the subtrees hanging at x other than the one containing `from`; nodes of degree 2
+\* (and a seed whose only child is `from`) are transparent
+RECURSIVE UpParts(_, _, _)
+UpParts(g, x, from) ==
     LET down == {Canon(g, c) : c \in KidSet(g, x) \ {from}}
-        up == IF g.par[x] = 0 THEN {} ELSE {UpCanon(g, g.par[x], x)}
-        parts == down \cup up
+        up == IF g.par[x] = 0 THEN {}
+              ELSE LET q == UpParts(g, g.par[x], x)
+                   IN IF q = {} THEN {} ELSE IF Cardinality(q) = 1 THEN q ELSE {[t |-> 0, k |-> q]}
+    IN down \cup up
+UpCanon(g, x, from) ==
+    LET parts == UpParts(g, x, from)
     IN IF Cardinality(parts) = 1 THEN CHOOSE p \in parts : TRUE ELSE [t |-> 0, k |-> parts]
 CanonUnrooted(g) ==
     IF TreeTx(g) = {} THEN Canon(g, g.seed)
     ELSE LET r == CHOOSE x \in Leaves(g) : g.tx[x] = Min(TreeTx(g))
-         IN IF g.par[r] = 0 THEN Canon(g, r) ELSE UpCanon(g, g.par[r], r)
+         IN IF g.par[r] = 0 \/ UpParts(g, g.par[r], r) = {} THEN Canon(g, r) ELSE UpCanon(g, g.par[r], r)
 Topology(g) == IF IsRooted(g) THEN Canon(g, g.seed) ELSE CanonUnrooted(g)
 
 \* ---------------------------------------------------------- lengths and paths (C07, C14)
